@@ -113,6 +113,11 @@ BadFuncs(cfg, ps) == UsedFuncs(ps) \ DefinedFuncs(cfg)
 BadSufs(cfg, ps) == UsedSufs(ps) \ SuffixesOf(cfg)
 OutOfScope(cfg, boxes, ps) ==
   BadVars(cfg, boxes, ps, TRUE) # {} \/ BadFuncs(cfg, ps) # {} \/ BadSufs(cfg, ps) # {}
+\* the same, for one box only
+BoxOutOfScope(cfg, boxes, ps, b) ==
+  \/ \E nm \in UVars(ps[b].t) : ~InScopeVar(cfg, nm, CharsOfName(boxes, nm), BoxRole(cfg, b))
+  \/ UFuncs(ps[b].t) \ DefinedFuncs(cfg) # {}
+  \/ USufs(ps[b].t) \ SuffixesOf(cfg) # {}
 
 \* ---------------------------------------------------------------- restrictions on in-scope formulas
 Unpermitted(cfg, ps) == UsedFuncs(ps) \ PermittedOf(cfg)
@@ -240,6 +245,14 @@ ValueOf(cfg, boxes, ps) ==
                 b == IF lo.q[1] <= hi.q[1] THEN hi.q[1] ELSE lo.q[1] IN
             SumFrom(ps[3].t, env, cfg.dummy, a, b)
 
+(* A summation has three boxes and the limits are looked at first: when both limits are in scope but are not (known to
+   be) integers, the summation is refused as such before an undefined name in the summand is noticed.  Either
+   student-facing refusal satisfies the statement. *)
+SumLimitsDoubtful(cfg, boxes, ps) ==
+  /\ cfg.kind = "sum"
+  /\ ~BoxOutOfScope(cfg, boxes, ps, 1) /\ ~BoxOutOfScope(cfg, boxes, ps, 2)
+  /\ LET env == EnvOf(cfg, boxes, ps) lo == Ev(ps[1].t, env) hi == Ev(ps[2].t, env) IN ~(IsInt(lo) /\ IsInt(hi))
+
 (* equality of two exact values with a guard band: "yes" / "no" / "unknown".  Different exact values count as
    different only when they are at least 1e-3 apart relative to the answer (every tolerance used is far smaller). *)
 SmallQ(q) == EV!Abs(q[1]) <= 1000 /\ q[2] <= 1000
@@ -286,35 +299,46 @@ ErrFamily == {"invalid", "undefvar", "undeffunc", "student"}     \* student-faci
 UndefFamily == {"undefvar", "undeffunc"}
 Graded == {"credit", "partial", "zero"}
 
+(* Everything the property looks at, computed once per (configuration, submission):
+     trees   every box parses           oos      some name is outside the student's scope
+     bv bf bs  the offending variables / functions / suffixes
+     fh up mr  forbidden string present / functions used but not permitted / required functions not used
+     w       what the submission is worth ("n/a" when it cannot be evaluated in the student's scope)
+     doubt   summation limits that are refused as such before the summand is looked at *)
+Facts(cfg, boxes) ==
+  LET ps == ParseAll(boxes) IN
+  IF ~AllTrees(ps) THEN [trees |-> FALSE]
+  ELSE LET bv == BadVars(cfg, boxes, ps, TRUE) bf == BadFuncs(cfg, ps) bs == BadSufs(cfg, ps)
+           oos == bv # {} \/ bf # {} \/ bs # {} IN
+       [trees |-> TRUE, oos |-> oos, bv |-> bv, bf |-> bf, bs |-> bs,
+        fh |-> ForbiddenHit(boxes, cfg.forbidden), up |-> Unpermitted(cfg, ps), mr |-> MissingRequired(cfg, ps),
+        w |-> IF oos THEN "n/a" ELSE Worth(cfg, boxes, ps),
+        doubt |-> oos /\ SumLimitsDoubtful(cfg, boxes, ps)]
+RestrictedF(F) == F.fh \/ F.up # {} \/ F.mr # {}
+
 (* MustReject: the submission may not be graded at all (first disjunct: names outside the student's scope, whatever
    their value) or may not be graded with credit (restricted construct in a formula that would earn credit). *)
-MustReject(cfg, boxes) ==
-  LET ps == ParseAll(boxes) IN
-  /\ AllTrees(ps)
-  /\ \/ OutOfScope(cfg, boxes, ps)
-     \/ (Restricted(cfg, boxes, ps) /\ Worth(cfg, boxes, ps) \in {"full", "partial"})
+MustRejectF(F) == F.trees /\ (F.oos \/ (RestrictedF(F) /\ F.w \in {"full", "partial"}))
+MustReject(cfg, boxes) == MustRejectF(Facts(cfg, boxes))
 
 (* Allowed outcome classes, exactly as loose as the statement:
    - unparsable                      -> a student-facing error
-   - a name out of scope             -> rejected as undefined (either class), credit-worthy or not
+   - a name out of scope             -> rejected as undefined (either class), credit-worthy or not (a summation
+                                        whose limits are not integers may be refused for that reason first)
    - restricted and worth credit     -> a student-facing error
    - restricted, worth nothing/unknown -> anything but credit
    - unrestricted                    -> the grade the answers assign (the author's answers are exempt: they are
                                         evaluated in the author's scope and never checked against the restrictions) *)
-Outcome(cfg, boxes) ==
-  LET ps == ParseAll(boxes) IN
-  IF ~AllTrees(ps) THEN [allowed |-> {"student"}, fine |-> "student", why |-> "unparsable"]
-  ELSE IF OutOfScope(cfg, boxes, ps) THEN
-     [allowed |-> UndefFamily,
-      fine |-> IF BadVars(cfg, boxes, ps, TRUE) # {} THEN "undefvar" ELSE "undeffunc",
-      why |-> IF BadVars(cfg, boxes, ps, TRUE) # {} THEN "variable-out-of-scope"
-              ELSE IF BadFuncs(cfg, ps) # {} THEN "function-undefined" ELSE "suffix-undefined"]
-  ELSE LET w == Worth(cfg, boxes, ps)
-           r == Restricted(cfg, boxes, ps)
-           why == IF ForbiddenHit(boxes, cfg.forbidden) THEN "forbidden-string"
-                  ELSE IF MissingRequired(cfg, ps) # {} THEN "required-function-missing"
-                  ELSE IF Unpermitted(cfg, ps) # {} THEN "function-not-permitted" ELSE "unrestricted" IN
-       IF r THEN
+OutcomeF(F) ==
+  IF ~F.trees THEN [allowed |-> {"student"}, fine |-> "student", why |-> "unparsable"]
+  ELSE IF F.oos THEN
+     [allowed |-> UndefFamily \cup (IF F.doubt THEN {"student"} ELSE {}),
+      fine |-> IF F.bv # {} THEN "undefvar" ELSE "undeffunc",
+      why |-> IF F.bv # {} THEN "variable-out-of-scope" ELSE IF F.bf # {} THEN "function-undefined" ELSE "suffix-undefined"]
+  ELSE LET w == F.w
+           why == IF F.fh THEN "forbidden-string" ELSE IF F.mr # {} THEN "required-function-missing"
+                  ELSE IF F.up # {} THEN "function-not-permitted" ELSE "unrestricted" IN
+       IF RestrictedF(F) THEN
           (IF w \in {"full", "partial"} THEN [allowed |-> ErrFamily, fine |-> "invalid", why |-> why]
            ELSE IF w = "none" THEN [allowed |-> ErrFamily \cup {"zero"}, fine |-> "zero", why |-> why]
            ELSE [allowed |-> ErrFamily \cup {"zero"}, fine |-> "any", why |-> why])
@@ -324,21 +348,20 @@ Outcome(cfg, boxes) ==
            ELSE IF w = "none" THEN [allowed |-> {"zero"}, fine |-> "zero", why |-> why]
            ELSE IF w = "error" THEN [allowed |-> ErrFamily \cup {"zero"}, fine |-> "any", why |-> why]
            ELSE [allowed |-> ErrFamily \cup Graded, fine |-> "any", why |-> why])
+Outcome(cfg, boxes) == OutcomeF(Facts(cfg, boxes))
 
 \* ---------------------------------------------------------------- laws about the specification itself
-\* the central law: what must be rejected is never graded with credit and is always answered by the error family
-LawRejectFamily(cfg, boxes) ==
-  MustReject(cfg, boxes) => /\ Outcome(cfg, boxes).allowed \subseteq ErrFamily
-                            /\ Outcome(cfg, boxes).allowed \cap Graded = {}
+(* Laws are stated over the facts of a case so that a model instance can evaluate all of them from one computation. *)
+\* the central law: what must be rejected is never graded and is always answered by the student-facing error family
+LawRejectFamilyF(F) ==
+  MustRejectF(F) => (OutcomeF(F).allowed \subseteq ErrFamily /\ OutcomeF(F).allowed \cap Graded = {})
 \* a restricted construct never yields credit, whatever the formula is worth
-LawRestrictedNoCredit(cfg, boxes) ==
-  LET ps == ParseAll(boxes) IN
-  (AllTrees(ps) /\ (OutOfScope(cfg, boxes, ps) \/ Restricted(cfg, boxes, ps)))
-     => Outcome(cfg, boxes).allowed \cap {"credit", "partial"} = {}
+LawRestrictedNoCreditF(F) ==
+  (F.trees /\ (F.oos \/ RestrictedF(F))) => OutcomeF(F).allowed \cap {"credit", "partial"} = {}
 \* names out of scope are rejected as undefined even if the formula is wrong anyway
-LawScopeUnconditional(cfg, boxes) ==
-  LET ps == ParseAll(boxes) IN
-  (AllTrees(ps) /\ OutOfScope(cfg, boxes, ps)) => Outcome(cfg, boxes).allowed \subseteq UndefFamily
+LawScopeUnconditionalF(F) ==
+  (F.trees /\ F.oos) => /\ OutcomeF(F).allowed \cap Graded = {}
+                        /\ ~F.doubt => OutcomeF(F).allowed \subseteq UndefFamily
 \* permitted set: algebra of the three configuration styles
 LawPermitted(cfg) ==
   LET p == PermittedOf(cfg) IN
@@ -347,9 +370,10 @@ LawPermitted(cfg) ==
   /\ cfg.wmode = "off" => (p \cap cfg.black = {} /\ cfg.defaultFuncs \ cfg.black \subseteq p)
   /\ cfg.wmode = "list" => (p \cap cfg.defaultFuncs) = ((cfg.white \cap cfg.defaultFuncs) \cup (cfg.userFuncs \cap cfg.defaultFuncs))
   /\ cfg.wmode = "nofuncs" => p = cfg.userFuncs
-\* blanks never change anything: the outcome of a submission equals the outcome of the same submission without blanks
+\* blanks never change anything: the facts of a submission equal the facts of the same submission without blanks
 Unblank(boxes) == [b \in 1..Len(boxes) |-> SelectSeq(boxes[b], LAMBDA lx : ~IsWs(lx))]
-LawBlanksIrrelevant(cfg, boxes) == Outcome(cfg, Unblank(boxes)) = Outcome(cfg, boxes)
+HasBlanks(boxes) == \E b \in 1..Len(boxes) : \E i \in 1..Len(boxes[b]) : IsWs(boxes[b][i])
+LawBlanksIrrelevantF(cfg, boxes, F) == HasBlanks(boxes) => Facts(cfg, Unblank(boxes)) = F
 \* the author is exempt: every answer has a value in the author's scope, whatever it uses
 LawAuthorExempt(cfg) ==
   \A i \in 1..Len(cfg.answers) :
@@ -357,12 +381,13 @@ LawAuthorExempt(cfg) ==
      /\ AllTrees(aps)
      /\ BadVars(cfg, ab, aps, FALSE) = {} /\ BadFuncs(cfg, aps) = {}
      /\ ~IsBad(ValueOf(cfg, ab, aps))
-\* removing every restriction from the configuration never creates a refusal (restrictions only ever remove credit)
+(* restrictions only ever remove credit: with every restriction taken out of the configuration the same submission
+   has the same scope and worth, is not restricted, and is graded as the answers say *)
 Open(cfg) == [cfg EXCEPT !.wmode = "off", !.white = {}, !.black = {}, !.required = {}, !.forbidden = {}]
-LawOnlyRestrictionsRefuse(cfg, boxes) ==
-  LET ps == ParseAll(boxes) IN
-  (AllTrees(ps) /\ ~OutOfScope(cfg, boxes, ps)) =>
-     LET o == Outcome(Open(cfg), boxes) w == Worth(cfg, boxes, ps) IN
-     /\ w = "full" => o.allowed = {"credit"}
-     /\ w = "partial" => o.allowed = {"partial"}
+LawOnlyRestrictionsRefuseF(cfg, boxes, F) ==
+  (F.trees /\ ~F.oos) =>
+     LET G == Facts(Open(cfg), boxes) o == OutcomeF(G) IN
+     /\ ~RestrictedF(G) /\ G.w = F.w /\ ~G.oos
+     /\ F.w = "full" => o.allowed = {"credit"}
+     /\ F.w = "partial" => o.allowed = {"partial"}
 =============================================================================
